@@ -244,7 +244,7 @@ pub fn run(cfg: &Cfg, rep: &mut Report) {
     bt.run(&m, rep);
     boundary_tables(rep);
     // 2. parsed trees
-    let n = if cfg.tier_thorough { 200_000 } else if cfg.full { 50_000 } else { 10_000 };
+    let n = if cfg.tier_thorough { 200_000 } else if cfg.full { 50_000 } else { 30_000 };
     let mut done = 0;
     while done < n {
         let mut bt = Batch::new();
